@@ -400,6 +400,11 @@ fn constant_pool_limit(rep: &mut Report) {
                     rep.fail(&format!("{}add_constant/ensures#ok_index_exact", B), &format!("constant #{} got index {}", before, i));
                     break;
                 }
+                if i == u16::MAX {
+                    rep.fail(&format!("{}add_constant/ensures#ok_never_the_no_name_sentinel", B),
+                             &format!("constant #{} got index 65535 == ConstantIndex::MAX, the 'class has no name' sentinel of ApplyClassDecorator", before));
+                    break;
+                }
             }
             Err(_) => {
                 if before < 65535 {
